@@ -126,19 +126,22 @@ struct Journal {
 // ---- case files ------------------------------------------------------------------------
 static inline bool write_case_file(const std::string& path, const std::string& prop,
                                    const std::string& driver, const Case& c,
-                                   const std::string& msg) {
+                                   const std::string& msg, const Case* before = nullptr) {
   FILE* f = fopen(path.c_str(), "w");
   if (!f) return false;
   fprintf(f, "property: %s\ndriver: %s\ncampaign: %s\naux: %llu %llu %llu %llu\ndata: %s\n",
           prop.c_str(), driver.c_str(), c.campaign.c_str(), (unsigned long long)c.aux[0],
           (unsigned long long)c.aux[1], (unsigned long long)c.aux[2], (unsigned long long)c.aux[3],
           hex(c.data).c_str());
+  // the case that ran just before this one in the same process: replay runs it first if the case passes alone
+  if (before) fprintf(f, "before: %s|%llu %llu %llu %llu|%s\n", before->campaign.c_str(), (unsigned long long)before->aux[0], (unsigned long long)before->aux[1],
+                      (unsigned long long)before->aux[2], (unsigned long long)before->aux[3], hex(before->data).c_str());
   std::string m = msg; std::replace(m.begin(), m.end(), '\n', ' ');
   fprintf(f, "note: %s\n", m.c_str());
   fclose(f);
   return true;
 }
-static inline bool read_case_file(const std::string& path, Case& c, std::string* prop = nullptr) {
+static inline bool read_case_file(const std::string& path, Case& c, std::string* prop = nullptr, Case* before = nullptr, bool* has_before = nullptr) {
   FILE* f = fopen(path.c_str(), "r");
   if (!f) return false;
   char* line = nullptr; size_t cap = 0; ssize_t n;
@@ -152,6 +155,14 @@ static inline bool read_case_file(const std::string& path, Case& c, std::string*
       unsigned long long a, b, d, e;
       if (sscanf(s.c_str() + 5, "%llu %llu %llu %llu", &a, &b, &d, &e) == 4) { c.aux[0] = a; c.aux[1] = b; c.aux[2] = d; c.aux[3] = e; }
     } else if (starts("data: ")) c.data = unhex(s.substr(6));
+    else if (starts("before: ") && before) {
+      size_t p1 = s.find('|', 8), p2 = p1 == std::string::npos ? p1 : s.find('|', p1 + 1);
+      unsigned long long a, b, d, e;
+      if (p2 != std::string::npos && sscanf(s.c_str() + p1 + 1, "%llu %llu %llu %llu", &a, &b, &d, &e) == 4) {
+        before->campaign = s.substr(8, p1 - 8); before->aux[0] = a; before->aux[1] = b; before->aux[2] = d; before->aux[3] = e; before->data = unhex(s.substr(p2 + 1));
+        if (has_before) *has_before = true;
+      }
+    }
   }
   free(line); fclose(f);
   return true;
@@ -185,6 +196,7 @@ struct Ctx {
   std::vector<std::string> failures;
   bool inconclusive = false;
   size_t max_failures = 3, max_samples = 24;
+  Case prev; bool have_prev = false;   // the case that ran just before the current one in this process (kept for the failure record)
   std::chrono::steady_clock::time_point t0 = std::chrono::steady_clock::now();
 
   double elapsed() const { return std::chrono::duration<double>(std::chrono::steady_clock::now() - t0).count(); }
@@ -205,6 +217,11 @@ struct Ctx {
 
   // returns true if the case passed (or was skipped)
   bool exec(const Case& c) {
+    bool ok = exec_inner(c);
+    if (c.data.size() <= 4096) { prev = c; have_prev = true; } else have_prev = false;
+    return ok;
+  }
+  bool exec_inner(const Case& c) {
     journal.set(c, ++seq);
     g_case_ticks++; g_in_case = 1;
     Result r = oracle(c);
@@ -225,7 +242,7 @@ struct Ctx {
       if (failures.size() >= max_failures) { counters["failures_beyond_the_first_three_of_a_shard"]++; return false; }   // a loop that polls stop() rarely
       char name[64]; snprintf(name, sizeof name, "%016llx", (unsigned long long)case_hash(c));
       std::string path = faildir + "/" + prop + "-" + name + ".case";
-      write_case_file(path, prop, driver, c, r.msg);
+      write_case_file(path, prop, driver, c, r.msg, have_prev ? &prev : nullptr);
       failures.push_back(path);
       fprintf(stderr, "ORACLE-FAIL %s %s :: %s\n", prop.c_str(), describe(c).c_str(), r.msg.c_str());
       return false;
@@ -325,8 +342,14 @@ static inline int driver_main(int argc, char** argv, const Driver& drv) {
   if (drv.pretty) ctx.pretty = drv.pretty;
   if (!replay.empty()) {
     Case c;
-    if (!read_case_file(replay, c)) { fprintf(stderr, "cannot read %s\n", replay.c_str()); return 2; }
+    Case before; bool has_before = false;
+    if (!read_case_file(replay, c, nullptr, &before, &has_before)) { fprintf(stderr, "cannot read %s\n", replay.c_str()); return 2; }
     Result r = drv.run_case(ctx.prop, c);
+    if (r.ok && !r.skipped && has_before) {   // passes alone: once more after the case that preceded it in the campaign
+      (void)drv.run_case(ctx.prop, before);
+      r = drv.run_case(ctx.prop, c);
+      if (!r.ok) r.msg = "(only after the case recorded as 'before' has run in the same process; alone it passes) " + r.msg;
+    }
     auto t_rep = std::chrono::steady_clock::now();
     unsigned reps = drv.replay_repeat;
     if (const char* e = getenv("VERIF_REPLAY_REPEAT")) reps = (unsigned)strtoul(e, nullptr, 10);
